@@ -17,6 +17,7 @@ EXTENDS Naturals, Integers, Sequences, FiniteSets, TLC
 \* invoices for one hash), "old" (expired); channels: node-assigned ids (dbid) 1..3
 InitNode == [ allow |-> {}, inv |-> {}, mark |-> 0,
               chans |-> {},      \* set of [d, phase, forget]
+              iss |-> {},        \* invoices the node ISSUED (sign_bolt11_invoice): set of [h, v]
               fee |-> 0 ]        \* fees counted by the fee velocity control, in units of one Withdraw fee
                                  \* (tracked only when k.feeLimit > 0: runs with a small fee velocity limit)
 
@@ -68,6 +69,16 @@ AddKeysend(s, h, v, k) ==
          (IF [h |-> h, v |-> v, ks |-> TRUE] \in s.inv THEN OkFlag(s, TRUE) ELSE Err(s))
   ELSE OkFlag([s EXCEPT !.inv = @ \cup {[h |-> h, v |-> v, ks |-> TRUE]}], TRUE)
 
+\* sign_bolt11_invoice (the receive path): the node signs an invoice of its own and remembers it as issued.
+\* Order in the code: table full -> refused; an entry for the payment hash exists -> the same invoice is signed
+\* again, a different one is refused; otherwise the invoice is recorded (in memory: the node entry is not written
+\* by this request).  A refusal leaves the table as it was.
+IssOf(s, h) == {e \in s.iss : e.h = h}
+IssueInvoice(s, h, v, k) ==
+  IF "maxInvoices" \in DOMAIN k /\ k.maxInvoices > 0 /\ Cardinality({e.h : e \in s.iss}) >= k.maxInvoices THEN Err(s)
+  ELSE IF IssOf(s, h) # {} THEN (IF [h |-> h, v |-> v] \in s.iss THEN Ok(s) ELSE Err(s))
+  ELSE Ok([s EXCEPT !.iss = @ \cup {[h |-> h, v |-> v]}])
+
 ChanOf(s, d) == {c \in s.chans : c.d = d}
 NewChannel(s, d) ==
   IF s.mark >= d THEN Err(s)                                 \* policy-channel-original-channel-id-reuse
@@ -117,12 +128,15 @@ Step(s, r, k) ==
     [] r.op = "RemoveAllow" -> RemoveAllow(s, r.l, k)
     [] r.op = "AddInvoice"  -> AddInvoice(s, r.h, r.v, k)
     [] r.op = "AddKeysend"  -> AddKeysend(s, r.h, r.v, k)
+    [] r.op = "IssueInvoice" -> IssueInvoice(s, r.h, r.v, k)
     [] r.op = "NewChannel"  -> NewChannel(s, r.d)
     [] r.op = "Setup"       -> Setup(s, r.d)
     [] r.op = "Forget"      -> Forget(s, r.d)
     [] r.op = "Withdraw"    -> Withdraw(s, r.inp, r.fund, k)
     [] r.op = "Heartbeat"   -> Ok(s)          \* nothing expires / is buried with a fixed clock and chain
-    [] r.op = "Restart"     -> Ok(s)
+    \* issued invoices live in memory until a later request writes the node entry (none of the requests that
+    \* occur together with IssueInvoice in an alphabet does): a restart forgets them
+    [] r.op = "Restart"     -> Ok([s EXCEPT !.iss = {}])
     [] OTHER                -> Err(s)
 
 \* request alphabet (kept small: every request is applied to every reachable state of the real node)
@@ -141,6 +155,13 @@ Requests ==
   \cup {[op |-> "Forget", d |-> d] : d \in 1..MaxD}
   \cup {[op |-> "Withdraw", inp |-> i, fund |-> 0] : i \in {"wpkh", "tr", "badtr", "badpath"}}
   \cup {[op |-> "Withdraw", inp |-> i, fund |-> d] : i \in {"wpkh", "badpath"}, d \in 1..MaxD}
+  \cup {[op |-> "Heartbeat"], [op |-> "Restart"]}
+
+\* the alphabet of the small "issue" graph: invoices issued by the node itself (two invoices for one hash, one
+\* for another), heartbeat, restart
+IssueRequests ==
+       {[op |-> "IssueInvoice", h |-> "h1", v |-> v] : v \in {"v1", "v2"}}
+  \cup {[op |-> "IssueInvoice", h |-> "h2", v |-> "v1"]}
   \cup {[op |-> "Heartbeat"], [op |-> "Restart"]}
 
 ---------------------------------------------------------------------------
